@@ -87,7 +87,7 @@ func tagHolds(x ssa.Value, blk *ssa.BasicBlock) map[string]bool {
 	out := map[string]bool{}
 	refs := x.Referrers()
 	if refs == nil {
-		return out
+		refs = &[]ssa.Instruction{}
 	}
 	check := func(tv ssa.Value) {
 		if tv.Referrers() == nil {
@@ -161,6 +161,15 @@ func tagHolds(x ssa.Value, blk *ssa.BasicBlock) map[string]bool {
 			continue
 		}
 		check(c)
+	}
+	if p, isParam := x.(*ssa.Parameter); isParam && len(out) == 0 {
+		// the handler of a dispatch table entered under its key (an/tabledispatch.go)
+		if ts := tableEntryTags(p); len(ts) > 0 {
+			for t := range ts {
+				out[t] = true
+			}
+			return out
+		}
 	}
 	if len(out) == 0 {
 		// a case with several tags (case A, B:): the block is entered from the true side of one
